@@ -261,9 +261,9 @@ class Interp:
         eid = e.get_id()
         r = self.bcache.get(eid)
         if r is not None:
-            return r
+            return r[1]
         r = self._bounds(e)
-        self.bcache[eid] = r
+        self.bcache[eid] = (e, r)     # keep the term alive: z3 reuses ast ids of collected terms
         return r
 
     def _bounds(self, e):
@@ -710,6 +710,7 @@ class Interp:
             qh = xh // max(yl, 1) if yl is not None else xh
         self.var_bounds[q.decl().name()] = (0, qh)
         self.var_bounds[r.decl().name()] = (0, None if yh is None else yh - 1)
+        st.ghost['divs'] = st.ghost.get('divs', ()) + ((x, y, q, r),)
         return q, r
 
     def rvalue(self, st, fn, base, rv, dest_ty=None):
